@@ -118,7 +118,20 @@ func breakSet(r *rand.Rand, cs []mCheck) ([]mCheck, string) {
 	i := r.Intn(len(cs))
 	switch r.Intn(9) {
 	case 0:
-		cs = append(cs, mCheck{ID: cs[i].ID, Level: cs[i].Level, Revs: []mRev{{Minor: 3}}})
+		// the same id again: at the same or at the other level, appended or inserted before the original
+		lvl := cs[i].Level
+		if r.Intn(2) == 0 {
+			lvl = map[string]string{"baseline": "restricted", "restricted": "baseline"}[lvl]
+			if lvl == "" {
+				lvl = "baseline"
+			}
+		}
+		dup := mCheck{ID: cs[i].ID, Level: lvl, Revs: []mRev{{Minor: 3}}}
+		if r.Intn(2) == 0 {
+			cs = append(cs, dup)
+		} else {
+			cs = append([]mCheck{dup}, cs...)
+		}
 		return cs, "duplicate id"
 	case 1:
 		cs[i].Level = []string{"privileged", "", "Baseline", "other"}[r.Intn(4)]
